@@ -2135,7 +2135,7 @@ def r8_13(rep):
     rep.need(n >= 9, "`derivable_traits |= DerivableTraits::X` sites")
 
 
-@RULES.rule("R8.14", "the hand-written Debug impl never formats a value built from a type nobody vouched for", floor=2)
+@RULES.rule("R8.14", "the hand-written Debug impl never formats a value built from a type nobody vouched for", floor=3)
 def r8_14(rep):
     """`Item::impl_debug` leaves a field out when its own type is not allowlisted ("we don't know if blocklisted items impl Debug").
     An array is allowlisted as an item even when its ELEMENT type is blocklisted: `struct S { struct Blocked arr[3]; }` with
@@ -2167,6 +2167,15 @@ def r8_14(rep):
                     for y in b.walk(c))]
         rep.check(bool(asks), "debug-array-asks-element", "the array arm asks whether the element type can be formatted" if asks else
                   "the array arm formats `self.<field>` without looking at the element type: an array of a blocklisted type needs `Blocked: Debug`",
+                  b.loc(a["body"]))
+    # a template instantiation is formatted through its arguments as well
+    for a in ms[0]["arms"]:
+        if not any(v.endswith("TypeKind::TemplateInstantiation") for v in _pv(a["pat"])):
+            continue
+        names = [(x.get("name") or (x.get("callee") or "").split("::")[-1]) for x in b.walk(a["body"]) if x["k"] in ("MCall", "Call")]
+        asks = "template_arguments" in names and ("impl_debug" in names or "allowlisted_items" in names)
+        rep.check(asks, "debug-instantiation-asks-arguments", "the instantiation arm asks whether every template argument can be formatted" if asks else
+                  "the instantiation arm formats `self.<field>` without looking at the template arguments: `Tmpl<Blocked>` needs `Blocked: Debug`",
                   b.loc(a["body"]))
 
 
@@ -2335,3 +2344,30 @@ def r8_19(rep):
                       "the `TypeKind::Array` arm of %s::constrain never looks the element type up in the analysis' own state: what is known "
                       "about the element is lost for the array (and for every struct that holds the array)" % a.name, b.loc(arm["body"]))
     rep.need(n >= 2, "Array arms of HasFloat / HasTypeParameterInArray")
+
+
+THROUGH_OPAQUE = ("HasDestructorAnalysis", "HasVtableAnalysis", "HasFloat")
+
+
+@RULES.rule("R8.20", "destructor, vtable and float facts are computed for opaque types like for any other", floor=3)
+def r8_20(rep):
+    """An opaque class still has its destructor, its vtable pointer and its floats; only its members are hidden.  The derive analysis
+    answers for an opaque type from exactly these facts (`lookup_has_destructor` in the opaque short cut, R8.17; `has_float` for
+    Eq/Ord/Hash).  If one of the three analyses stops at an opaque type ("bases and fields are not generated"), an opaque class whose
+    destructor comes from a member derives Copy, and so does everything that embeds it (seeded change)."""
+    import c07
+    n = 0
+    for a in c07.analyses(rep):
+        if a.name not in THROUGH_OPAQUE:
+            continue
+        n += 1
+        hits = []
+        for nm, b in a.methods.items():
+            if nm in ("new", "from", "initial_worklist"):
+                continue
+            for c in b.calls(lambda x: "is_opaque" in (x.get("name") or "") or "is_opaque" in (x.get("callee") or "")):
+                hits.append((b, c))
+        rep.check(not hits, "no-opacity-cut:%s" % a.name, "never asks `is_opaque`" if not hits else
+                  "%s asks `is_opaque` in `%s`: the fact no longer reaches an opaque type through its members or bases, while the derive "
+                  "analysis relies on it for exactly those types" % (a.name, hits[0][0].path.split("::")[-1]), hits[0][0].loc(hits[0][1]) if hits else "bindgen/ir/analysis")
+    rep.need(n >= 3, "the HasDestructor / HasVtable / HasFloat analyses")
